@@ -231,6 +231,15 @@ const (
 	wallBudget = 15 * time.Minute
 )
 
+type cpuBudgeter interface{ CPUBudget() time.Duration }
+
+func budgetFor(p Property) time.Duration {
+	if b, ok := p.(cpuBudgeter); ok {
+		return b.CPUBudget()
+	}
+	return cpuBudget
+}
+
 // exec runs one plan in the child. If the child dies or exceeds its CPU
 // budget the returned result says so and the child is dead afterwards.
 func (c *child) exec(plan *Plan) *Result {
@@ -266,7 +275,7 @@ func (c *child) exec(plan *Plan) *Result {
 				if site == "" {
 					site = "runtime"
 				}
-				return &Result{Idx: plan.Idx, Verdict: "violation", Class: "crash/" + cls, Site: site, Detail: "worker process died while executing the plan:\n" + head(dump, 3000), Evals: 1}
+				return &Result{Idx: plan.Idx, Verdict: "violation", Class: "crash/" + cls, Site: classifyDeath(c.prop, plan, dump, site), Detail: "worker process died while executing the plan:\n" + head(dump, 3000), Evals: 1, Narrow: narrowByJournal(c.prop, plan, dump), NarrowedCase: journalCase(dump)}
 			}
 			var res Result
 			if err := json.Unmarshal(line, &res); err != nil {
@@ -276,7 +285,7 @@ func (c *child) exec(plan *Plan) *Result {
 			return &res
 		case <-tick.C:
 			cpu, ok := procCPU(c.cmd.Process.Pid)
-			if ok && cpu-cpu0 > cpuBudget {
+			if ok && cpu-cpu0 > budgetFor(c.prop) {
 				c.cmd.Process.Signal(syscall.SIGQUIT)
 				time.Sleep(1500 * time.Millisecond)
 				dump := c.stderr.since(plan.Idx)
@@ -285,7 +294,7 @@ func (c *child) exec(plan *Plan) *Result {
 				if site == "" {
 					return &Result{Idx: plan.Idx, Verdict: "infra", Detail: "CPU budget exceeded outside the library:\n" + tail(dump, 3000)}
 				}
-				return &Result{Idx: plan.Idx, Verdict: "violation", Class: "hang", Site: site, Detail: fmt.Sprintf("no result after %v of CPU time\n%s", cpu-cpu0, head(dump, 3000)), Evals: 1}
+				return &Result{Idx: plan.Idx, Verdict: "violation", Class: "hang", Site: classifyDeath(c.prop, plan, dump, site), Detail: fmt.Sprintf("no result after %v of CPU time\n%s", cpu-cpu0, head(dump, 3000)), Evals: 1, Narrow: narrowByJournal(c.prop, plan, dump), NarrowedCase: journalCase(dump)}
 			}
 			if time.Since(t0) > wallBudget {
 				c.cmd.Process.Signal(syscall.SIGQUIT)
@@ -296,6 +305,63 @@ func (c *child) exec(plan *Plan) *Result {
 			}
 		}
 	}
+}
+
+type caseNarrower interface {
+	NarrowCase(p *Plan, k int) *Plan
+}
+
+// deathClassifier lets a property refine the site of a violation that killed
+// or hung the worker, from what the plan itself says about the case in flight.
+// caseRemover returns the plan without case k (nil when nothing is left).
+type caseRemover interface {
+	WithoutCase(p *Plan, k int) *Plan
+}
+
+// journalCaseOf recovers the case index a narrowed plan was cut down to.
+func journalCaseOf(r *Result) int { return r.NarrowedCase }
+
+type deathClassifier interface {
+	ClassifyDeath(p *Plan, k int) string
+}
+
+func journalCase(dump string) int {
+	i := strings.LastIndex(dump, "@@CASE ")
+	if i < 0 {
+		return -1
+	}
+	var k int
+	if _, err := fmt.Sscanf(dump[i:], "@@CASE %d", &k); err != nil {
+		return -1
+	}
+	return k
+}
+
+func classifyDeath(p Property, plan *Plan, dump, site string) string {
+	if dc, ok := p.(deathClassifier); ok {
+		if s := dc.ClassifyDeath(plan, journalCase(dump)); s != "" {
+			return s
+		}
+	}
+	return site
+}
+
+// narrowByJournal uses the worker's "@@CASE k" journal to reduce a plan whose
+// execution killed the worker to the case that was in flight.
+func narrowByJournal(p Property, plan *Plan, dump string) *Plan {
+	cn, ok := p.(caseNarrower)
+	if !ok {
+		return nil
+	}
+	i := strings.LastIndex(dump, "@@CASE ")
+	if i < 0 {
+		return nil
+	}
+	var k int
+	if _, err := fmt.Sscanf(dump[i:], "@@CASE %d", &k); err != nil {
+		return nil
+	}
+	return cn.NarrowCase(plan, k)
 }
 
 func tail(s string, n int) string {
@@ -397,7 +463,9 @@ func ctlMain(propID, tier string) int {
 		violCount            int
 		infra                []string
 		capped               bool
-	}{sigs: map[string]bool{}, faults: Counter{}, probes: Counter{}, viol: map[string]*violationRec{}}
+		knownHits            Counter
+	}{sigs: map[string]bool{}, faults: Counter{}, probes: Counter{}, viol: map[string]*violationRec{}, knownHits: Counter{}}
+	known := loadFindings()
 
 	idxCh := make(chan int)
 	go func() {
@@ -432,6 +500,30 @@ func ctlMain(propID, tier string) int {
 				}
 				plan := p.Generate(seed, idx, tier)
 				res := c.exec(plan)
+				// A case that killed the worker through a listed known finding
+				// must not cost the rest of the plan its execution: the plan
+				// is re-run without that case (bounded).
+				if cr, ok := p.(caseRemover); ok {
+					for retry := 0; retry < 6 && res.Verdict == "violation" && res.Narrow != nil && matchKnown(known, propID, res.key()) != nil; retry++ {
+						k := journalCaseOf(res)
+						rest := cr.WithoutCase(plan, k)
+						if rest == nil {
+							break
+						}
+						mu.Lock()
+						agg.knownHits[res.key()]++
+						agg.evals += res.Evals
+						mu.Unlock()
+						if c == nil || c.dead {
+							var err error
+							if c, err = startChild(p, childOpts{}); err != nil {
+								break
+							}
+						}
+						plan = rest
+						res = c.exec(plan)
+					}
+				}
 				mu.Lock()
 				agg.plans++
 				agg.evals += res.Evals
@@ -464,8 +556,12 @@ func ctlMain(propID, tier string) int {
 	explored := time.Since(t0)
 
 	// Minimise and report violations.
-	known := loadFindings()
 	exit := 0
+	for _, k := range sortedKeys(agg.knownHits) {
+		if _, ok := agg.viol[k]; !ok {
+			agg.viol[k] = &violationRec{res: &Result{Class: strings.SplitN(k, "|", 2)[0], Site: strings.SplitN(k+"|", "|", 3)[1]}}
+		}
+	}
 	keys := sortedKeys(agg.viol)
 	reported := 0
 	for _, k := range keys {
